@@ -185,3 +185,68 @@ pub proof fn lemma_expire_done(d: Seq<(Uuid, TaskData)>, tasks: State, cut: int,
         assert(expired(tasks[d[j].0], cut));
     }
 }
+// ---- the dependency map (C19) ------------------------------------------------------------------------------------------------
+/// the task a `dep_<uuid>` key names (docs/src/tasks.md); other keys, and keys whose tail is not a uuid, name none
+pub open spec fn dep_target(k: Seq<char>) -> Option<Uuid> { match strip_prefix_spec(k, "dep_"@) { Some(t) => uuid_parse(t), None => None } }
+pub open spec fn pending_task(tasks: State, d: Uuid) -> bool { tasks.dom().contains(d) && tasks[d].dom().contains("status"@) && tasks[d]["status"@] == "pending"@ }
+/// e = (u, d) is an edge because u is listed in the working set at number i, exists, has the key k naming d, and d is a pending task
+pub open spec fn dep_edge_at(ws: Seq<Option<Uuid>>, tasks: State, i: int, k: Seq<char>, e: (Uuid, Uuid)) -> bool {
+    1 <= i < ws.len() && ws[i] == Some(e.0) && tasks.dom().contains(e.0) && tasks[e.0].dom().contains(k) && dep_target(k) == Some(e.1) && pending_task(tasks, e.1)
+}
+/// "the dependency map reflects exactly the stored statuses and dependency keys" of the tasks in the working set
+pub open spec fn dep_edge(ws: Seq<Option<Uuid>>, tasks: State, e: (Uuid, Uuid)) -> bool { exists|i: int, k: Seq<char>| #[trigger] dep_edge_at(ws, tasks, i, k, e) }
+pub open spec fn dm_sound(ws: Seq<Option<Uuid>>, tasks: State, edges: Seq<(Uuid, Uuid)>) -> bool {
+    forall|n: int| 0 <= n < edges.len() ==> dep_edge(ws, tasks, #[trigger] edges[n])
+}
+/// every edge arising at a working-set number below i (and, at number i, from one of the first j keys) is in the map
+pub open spec fn dm_complete(ws: Seq<Option<Uuid>>, tasks: State, edges: Seq<(Uuid, Uuid)>, i: int, keys: Seq<TaskKey>, j: int) -> bool {
+    &&& forall|i2: int, k: Seq<char>, e: (Uuid, Uuid)| i2 < i && #[trigger] dep_edge_at(ws, tasks, i2, k, e) ==> edges.contains(e)
+    &&& forall|j2: int, e: (Uuid, Uuid)| 0 <= j2 < j && #[trigger] dep_edge_at(ws, tasks, i, keys[j2].s@, e) ==> edges.contains(e)
+}
+pub open spec fn cache_ok(tasks: State, cache: Map<Uuid, bool>) -> bool {
+    forall|d: Uuid| cache.dom().contains(d) ==> (#[trigger] cache[d]) == pending_task(tasks, d)
+}
+pub open spec fn no_keys() -> Seq<TaskKey> { Seq::<TaskKey>::empty() }
+pub proof fn lemma_dm_add(ws: Seq<Option<Uuid>>, tasks: State, edges: Seq<(Uuid, Uuid)>, i: int, keys: Seq<TaskKey>, j: int, e: (Uuid, Uuid))
+    requires dm_sound(ws, tasks, edges), dm_complete(ws, tasks, edges, i, keys, j), 0 <= j < keys.len(), dep_edge_at(ws, tasks, i, keys[j].s@, e),
+    ensures dm_sound(ws, tasks, edges.push(e)), dm_complete(ws, tasks, edges.push(e), i, keys, j + 1),
+{
+    let e2 = edges.push(e);
+    assert forall|n: int| 0 <= n < e2.len() implies dep_edge(ws, tasks, #[trigger] e2[n]) by { if n < edges.len() { assert(e2[n] == edges[n]); } }
+    assert forall|i2: int, k: Seq<char>, x: (Uuid, Uuid)| i2 < i && #[trigger] dep_edge_at(ws, tasks, i2, k, x) implies e2.contains(x) by {
+        let n = choose|n: int| 0 <= n < edges.len() && edges[n] == x; assert(e2[n] == x);
+    }
+    assert forall|j2: int, x: (Uuid, Uuid)| 0 <= j2 < j + 1 && #[trigger] dep_edge_at(ws, tasks, i, keys[j2].s@, x) implies e2.contains(x) by {
+        if j2 < j { let n = choose|n: int| 0 <= n < edges.len() && edges[n] == x; assert(e2[n] == x); }
+        else { assert(x == e); assert(e2[edges.len() as int] == e); }
+    }
+}
+pub proof fn lemma_dm_skip(ws: Seq<Option<Uuid>>, tasks: State, edges: Seq<(Uuid, Uuid)>, i: int, keys: Seq<TaskKey>, j: int)
+    requires dm_complete(ws, tasks, edges, i, keys, j), 0 <= j < keys.len(),
+        dep_target(keys[j].s@) is None || !pending_task(tasks, dep_target(keys[j].s@)->Some_0),
+    ensures dm_complete(ws, tasks, edges, i, keys, j + 1),
+{
+}
+pub proof fn lemma_dm_next(ws: Seq<Option<Uuid>>, tasks: State, edges: Seq<(Uuid, Uuid)>, i: int, keys: Seq<TaskKey>)
+    requires dm_complete(ws, tasks, edges, i, keys, keys.len() as int), 1 <= i < ws.len(), ws[i] is Some, tasks.dom().contains(ws[i]->Some_0),
+        keys_listed(tasks[ws[i]->Some_0], keys),
+    ensures dm_complete(ws, tasks, edges, i + 1, no_keys(), 0),
+{
+    assert forall|i2: int, k: Seq<char>, x: (Uuid, Uuid)| i2 < i + 1 && #[trigger] dep_edge_at(ws, tasks, i2, k, x) implies edges.contains(x) by {
+        if i2 == i {
+            let j2 = choose|j2: int| 0 <= j2 < keys.len() && (#[trigger] keys[j2]).s@ == k;
+            assert(dep_edge_at(ws, tasks, i, keys[j2].s@, x));
+        }
+    }
+}
+pub proof fn lemma_dm_none(ws: Seq<Option<Uuid>>, tasks: State, edges: Seq<(Uuid, Uuid)>, i: int)
+    requires dm_complete(ws, tasks, edges, i, no_keys(), 0),
+        !(1 <= i < ws.len()) || ws[i] is None || !tasks.dom().contains(ws[i]->Some_0),
+    ensures dm_complete(ws, tasks, edges, i + 1, no_keys(), 0),
+{
+}
+pub proof fn lemma_dm_done(ws: Seq<Option<Uuid>>, tasks: State, edges: Seq<(Uuid, Uuid)>, n: int)
+    requires dm_complete(ws, tasks, edges, n, no_keys(), 0), n >= ws.len(),
+    ensures forall|i: int, k: Seq<char>, e: (Uuid, Uuid)| #[trigger] dep_edge_at(ws, tasks, i, k, e) ==> edges.contains(e),
+{
+}
